@@ -230,5 +230,5 @@ def histories(draw, tier='quick'):
     slow = chance(draw, 1, 25 if tier == 'quick' else 10)  # timeout = 1 in one case, sleep 1.5 in another: costs seconds
     n = draw(w([(2, 4), (3, 5), (4, 2), (5, 1)])) if not slow else draw(w([(2, 2), (3, 1)]))
     cases = [draw(_case('c%d' % i, slow)) for i in range(n)]
-    orders = _orders(draw, n, 2 if slow else 6 if tier == 'quick' else 24)
+    orders = _orders(draw, n, 2 if slow else 6 if tier == 'quick' else 12)
     return {'cases': cases, 'orders': orders, 'split': draw(st.integers(1, n - 1)) if chance(draw, 1, 4) else 0}
